@@ -108,7 +108,36 @@ func VP_C01_bytes() {
 // concrete formulas (keywords as member names and operands, nested lists and
 // conditionals, truncated constructs).
 func VP_C01_pool() {
-	vpC01CheckText([]byte(vpC02Texts[vpChoice("text", len(vpC02Texts))]))
+	text := []byte(vpC02Texts[vpChoice("text", len(vpC02Texts))])
+	vpC01CheckText(text)
+	if vpHasStrayByte(text) {
+		// a byte that can start no token cannot be consumed: the whole input was not
+		// consumed, so the outcome must be the syntax error (also after a rolled-back look-ahead)
+		_, err := ParseSourceCode(text)
+		vpAssert("C01/pool/stray-byte-is-a-syntax-error", err != nil)
+		vpReach("C01/pool/stray")
+	}
+}
+
+// vpHasStrayByte: the text has one of # @ ` \ outside a quoted literal.
+func vpHasStrayByte(text []byte) bool {
+	var quote byte
+	for i := 0; i < len(text); i++ {
+		c := text[i]
+		switch {
+		case quote != 0:
+			if c == '\\' {
+				i++
+			} else if c == quote {
+				quote = 0
+			}
+		case c == '\'' || c == '"':
+			quote = c
+		case c == '#' || c == '@' || c == '`' || c == '\\':
+			return true
+		}
+	}
+	return false
 }
 
 func vpC01CheckText(text []byte) {
